@@ -19,7 +19,7 @@ RULE = ("state = multiset of k lattice points x scaling; every distinct ordering
         "vertex (lies on an edge, face or is the origin) or the configuration is affinely dependent; "
         "distinct = distinct (multiset, scaling)")
 ASSUMPTIONS = ["fractions.Fraction arithmetic of CPython is exact",
-               "tolerance | |v|-|v*| | <= 1e-9*max_i |p_i| (relative to the size of the configuration; purely relative to |v*| is meaningless when 0 is in the hull)"]
+               "tolerance | |v|-|v*| | <= 1e-9*|v*| + 1e-12*max_i |p_i| (relative to the true norm with a floor relative to the size of the configuration; purely relative is meaningless when 0 is in the hull)"]
 CHUNK = 200
 STATE_TIMEOUT = 120.0
 
@@ -36,6 +36,36 @@ SCALES = {
     "s1e-6": (1e-6, 1e-6, 1e-6),
     "needle": (1.0, 1e-5, 1e-5),
 }
+
+
+NEEDLE_ROTS = [np.eye(3),
+               np.array([[-0.6, 0.0, 0.8], [0.64, -0.6, 0.48], [0.48, 0.8, 0.36]]),
+               np.array([[2 / 3., -2 / 3., 1 / 3.], [1 / 3., 2 / 3., 2 / 3.], [-2 / 3., -1 / 3., 2 / 3.]])]
+NEEDLE_OFFS = [(0.0, 0.0), (0.31, 0.17), (-0.17, -0.23)]
+
+
+def needle_triangle(aspect, height, short, rot, off):
+    """Needle triangle (long edges ~1, short edge = aspect) whose interior is closest to the origin, which hovers
+    `height` above its plane; `short` selects which edge (ab/bc/ac) is the short one."""
+    apex = np.array([-0.5, 0.0])
+    p = np.array([0.5, -0.5 * aspect])
+    q = np.array([0.5, 0.5 * aspect])
+    x0 = NEEDLE_OFFS[off][0]
+    y0 = NEEDLE_OFFS[off][1] * aspect * (x0 + 0.5)
+    tri = {"bc": [apex, p, q], "ac": [p, apex, q], "ab": [p, q, apex]}[short]
+    R = NEEDLE_ROTS[rot]
+    return [((t[0] - x0) * R[:, 0] + (t[1] - y0) * R[:, 1] + height * R[:, 2]).tolist() for t in tri]
+
+
+def needle_states():
+    out = []
+    for short in ("bc", "ac", "ab"):
+        for aspect in (1.0, 1e-1, 1e-2, 1e-3, 1e-4, 1e-5, 1e-6, 1e-7):
+            for height in (1.0, 1e-2, 1e-3, 1e-4):
+                for rot in range(3):
+                    for off in range(3):
+                        out.append({"k": 3, "pts": (), "scale": "needle_family", "needle": [aspect, height, short, rot, off]})
+    return out
 
 
 def warmup():
@@ -60,6 +90,7 @@ def enumerate_states(tier, seed):
             states.append({"k": k, "pts": ms, "scale": "unit"})
     k4 = [{"k": 4, "pts": ms, "scale": "unit"} for ms in _multisets(v1, 4)]
     meta = {}
+    states += needle_states()
     extra_scales_quick = ("small", "s1e-4", "needle", "aniso3")
     if tier == "quick":
         states += k4
@@ -110,15 +141,20 @@ def run_state(desc):
                                               distance_subalgorithm_with_backup_procedure)
     k = desc["k"]
     _SCALE[0] = desc["scale"]
-    sc = SCALES[desc["scale"]]
-    base = [tuple(float(c) * s for c, s in zip(p, sc)) for p in desc["pts"]]
+    if "needle" in desc:
+        base = [tuple(float(c) for c in p) for p in needle_triangle(*desc["needle"])]
+    else:
+        sc = SCALES[desc["scale"]]
+        base = [tuple(float(c) * s for c, s in zip(p, sc)) for p in desc["pts"]]
     exact_pts = [tuple(F(c) for c in p) for p in base]
     nsq, vstar, S, lam = ref.min_norm(exact_pts)
     ref_norm = float(nsq) ** 0.5 if nsq < 1e-300 else (float(nsq.numerator) / float(nsq.denominator)) ** 0.5
     scale = max(max(abs(c) for c in p) for p in base)
     if scale == 0.0:
         scale = 1.0
-    tol = 1e-9 * scale   # relative to the size of the configuration
+    # 1e-9 relative to the true norm, with a floor of 1e-12 of the size of the configuration (a purely relative
+    # test is meaningless when the hull contains, or nearly contains, the origin)
+    tol = 1e-9 * ref_norm + 1e-12 * scale
     viol = []
     hist = {"jolt_set": {}, "orig_n": {}, "opt_dim": {}}
     n_eval = 0
@@ -212,7 +248,7 @@ def run_state(desc):
     hist["opt_dim"]["%d:%d" % (k, dim)] = 1
     nontrivial = []
     if dim > 0 or nsq == 0 or dependent:
-        nontrivial.append([desc["pts"], desc["scale"]])
+        nontrivial.append([desc["pts"], desc["scale"], desc.get("needle")])
     return {"viol": viol, "n_eval": n_eval, "n_trans": len(seen_orders), "traces": n_eval,
             "nontrivial": nontrivial, "hist": hist,
             "sample": {"points": base, "orderings_executed": len(seen_orders), "exact_min_norm_sq": str(nsq),
